@@ -229,6 +229,16 @@ def fabricsAllow (fabrics : List Fabric) (req : AccessReq) (auxAclEnabled : Bool
     | none => false
     | some fabric => fabricAllow fabric req auxAclEnabled
 
+/-- the part of `AccessReq::allow_groupcast_auxiliary` after the fabric lookup -/
+def auxGrantedBy (fabric : Fabric) (req : AccessReq) : Bool :=
+  match req.object.path.endpoint with
+  | none => false
+  | some endpoint =>
+    let granted := fabric.groups.any (fun entry =>
+      entry.hasAux && entry.endpoints.contains endpoint
+        && subjectsMatches req.accessor.subjects entry.groupId)
+    granted && permsOk req.object PRIV_OPERATE
+
 /-- `AccessReq::allow_groupcast_auxiliary` (feature `groups`) -/
 def allowGroupcastAuxiliary (fabrics : List Fabric) (req : AccessReq) : Bool :=
   if !req.accessor.auxAclEnabled then false
@@ -236,14 +246,7 @@ def allowGroupcastAuxiliary (fabrics : List Fabric) (req : AccessReq) : Bool :=
   else if req.accessor.fabIdx == 0 then false
   else match fabricsGet fabrics req.accessor.fabIdx with
     | none => false
-    | some fabric =>
-      match req.object.path.endpoint with
-      | none => false
-      | some endpoint =>
-        let granted := fabric.groups.any (fun entry =>
-          entry.hasAux && entry.endpoints.contains endpoint
-            && subjectsMatches req.accessor.subjects entry.groupId)
-        granted && permsOk req.object PRIV_OPERATE
+    | some fabric => auxGrantedBy fabric req
 
 /-- `AccessReq::allow` -/
 def allow (fabrics : List Fabric) (req : AccessReq) : Bool :=
@@ -346,6 +349,33 @@ def fabricsUpdate (fabrics : List Fabric) (fabIdx : Nat) (g : Fabric → Fabric)
   match fabrics with
   | [] => []
   | f :: rest => if f.fabIdx == fabIdx then g f :: rest else f :: fabricsUpdate rest fabIdx g
+
+/-- `fabrics.fabric_mut(fab)?.acl_add(entry)` -/
+def fabricsAclAdd (fabrics : List Fabric) (fab : Nat) (e : Entry) : Option (List Fabric × Nat) :=
+  match fabricsGet fabrics fab with
+  | none => none
+  | some f =>
+    match f.aclAdd e with
+    | none => none
+    | some (f', i) => some (fabricsUpdate fabrics fab (fun _ => f'), i)
+
+/-- `fabrics.fabric_mut(fab)?.groups_mut().add(ep, gid, "")` -/
+def fabricsGroupAdd (fabrics : List Fabric) (fab ep gid : Nat) : Option (List Fabric) :=
+  match fabricsGet fabrics fab with
+  | none => none
+  | some f =>
+    match groupsAdd f.groups ep gid with
+    | none => none
+    | some gs => some (fabricsUpdate fabrics fab (fun _ => { f with groups := gs }))
+
+/-- `fabrics.fabric_mut(fab)?.groups_mut().set_has_aux_acl(gid, v)` for an existing group -/
+def fabricsSetHasAux (fabrics : List Fabric) (fab gid : Nat) (v : Bool) : Option (List Fabric × Bool) :=
+  match fabricsGet fabrics fab with
+  | none => none
+  | some f =>
+    match groupsSetHasAux f.groups gid v with
+    | (gs, some changed) => some (fabricsUpdate fabrics fab (fun _ => { f with groups := gs }), changed)
+    | (_, none) => none
 
 /-! # Specification (from the text of C05)
 
